@@ -144,10 +144,10 @@ def plan(seed, n_ops, sizes=(3, 4, 5, 6, 7, 8), with_tokens=True):
                 else:
                     m = gen.illformed_moves(rng, obj.size, 1, obj)[0]
             op = {"op": "move", "obj": slot, "move": ser.move_str(m)}
-            if m.slides and rng.random() < 0.15:
+            if m.slides and rng.random() < 0.3:
                 # the same move, derived from another slide with attrs.evolve (as callers that
                 # enumerate variations of a move do) instead of built by the constructor
-                other = tuple(rng.choice(_SLIDE_TEMPLATES))
+                other = tuple(rng.choice(_SLIDE_TEMPLATES + [(sum(m.slides) + 1,), (sum(m.slides) + 2,), (max(1, len(obj.board[m.x + m.y * obj.size]) if 0 <= m.x < obj.size and 0 <= m.y < obj.size else 1),)]))
                 op["evolved_from"] = ",".join(str(d) for d in other)
             do(op)
         elif k == "copy":
@@ -261,6 +261,7 @@ class Executor:
                         cfgt = "%d %d %d" % (n, pc, cp)
                 else:
                     obj = ser.parse_pos(op["pos"].split(" "))
+                    cfgt = _config_of_text(op["pos"])
             except Exception as e:
                 obj = None
                 rec["impl"] = "crash " + type(e).__name__
@@ -424,6 +425,22 @@ class Executor:
         return bad
 
 
+def _config_of_text(ps):
+    """the configuration a literal position belongs to, if there is one: both colours have the same
+    number of stones (board + reserve) and of capstones, nothing negative.  (Only selects WHICH
+    configuration the Lean invariant is evaluated for.)"""
+    t = ps.split(" ")
+    n, ws, wc, bs, bc = (int(x) for x in t[:5])
+    if min(ws, wc, bs, bc) < 0:
+        return None
+    b = t[6]
+    w_st, w_cp = b.count("a") + b.count("b") + ws, b.count("c") + wc
+    b_st, b_cp = b.count("d") + b.count("e") + bs, b.count("f") + bc
+    if (w_st, w_cp) != (b_st, b_cp):
+        return None
+    return "%d %d %d" % (n, w_st, w_cp)
+
+
 def _col(c):
     from tak import pieces
 
@@ -492,9 +509,16 @@ def judge(out, retained_bad, kinds, lineage_kinds=()):
             if "move" in kinds or lineage_kinds & set(rec.get("lineage", ())):
                 lines.append("move apply %s %s" % (rec["in"], rec["move"]))
                 refs.append((idx, "move"))
-            if "inv" in kinds and rec.get("cfg_text") and str(rec.get("impl", "")).startswith("ok "):
-                lines.append("move inv %s %s" % (rec["cfg_text"], rec["impl"][3:]))
-                refs.append((idx, "inv"))
+            if "inv" in kinds and str(rec.get("impl", "")).startswith("ok "):
+                if rec.get("cfg_text"):
+                    lines.append("move inv %s %s" % (rec["cfg_text"], rec["impl"][3:]))
+                    refs.append((idx, "inv"))
+                # whatever configuration the position belongs to: stones and capstones per colour
+                # (board + reserve, counted by the Lean `onBoard`) are the same before and after
+                lines.append("move totals " + rec["in"])
+                refs.append((idx, "totals-before"))
+                lines.append("move totals " + rec["impl"][3:])
+                refs.append((idx, "totals-after"))
         elif k == "copy":
             imp = rec.get("impl", "")
             if imp != "ok " + rec["in"]:
@@ -555,6 +579,11 @@ def judge(out, retained_bad, kinds, lineage_kinds=()):
                 fails.append({"index": idx, "kind": "new", "what": "Position.from_config(Config(size=%s, pieces=%s, capstones=%s)) is [%s]; the configured start position is [%s]" % (rec["cfg"][0], rec["cfg"][1], rec["cfg"][2], imp, ans)})
         elif what == "new-default":
             pass
+        elif what == "totals-before":
+            rec["_totals"] = ans
+        elif what == "totals-after":
+            if ans != rec.get("_totals"):
+                fails.append({"index": idx, "kind": "inv", "what": "the accepted move [%s] on [%s] gives [%s]: stones/capstones per colour (board + reserve) change from [%s] to [%s]" % (rec["move"], rec["in"], imp[3:], rec.get("_totals"), ans)})
         elif what == "inv":
             if ans != "true":
                 fails.append({"index": idx, "kind": "inv", "what": "configuration [%s]: the accepted move [%s] on [%s] gives [%s], which violates %s" % (rec["cfg_text"], rec["move"], rec["in"], imp[3:], ans)})
